@@ -27,6 +27,12 @@ CLAIMED = {
  "C07": ("deterministic simulation with fault injection: seeded histories of requests (raw and 34 manager APIs), scheduler-chosen replies (any sender, any order, duplicated, never), deferred e2ee jobs, link losses and (non-)resumptions; exactly-once counters, sender attribution, bounded completion",
          "seeded search over histories and schedules with a real client; every reply and every asynchronous completion is a scheduler decision; a clean batch is evidence, not proof",
          "transport, clock, server and encryption extension are simulated; 'don't care' sender variants are not judged"),
+ "C11": ("deterministic simulation with an adversarial party inside a live session: carbon wrappers from 16 sender variants in 4 shapes, bound-address history across reconnects and resumptions; unwrap => outer from == own bare JID, presented == flagged inner message",
+         "seeded search over sender strings, wrapper shapes and address histories through the real client pipelines; a clean batch is evidence, not proof",
+         "transport and server simulated; little schedule dimension (stated in DESIGN.md)"),
+ "C12": ("deterministic simulation with fault injection: seeded histories of roster results, authorised/forged pushes, presences, link losses and (non-)resumptions against a roster/presence reference model fed from the wire",
+         "seeded search over histories; refinement against a small reference model after every step; a clean batch is evidence, not proof",
+         "transport and server simulated; own-full-JID pushes are not judged"),
  "C09": ("deterministic simulation with fault injection: seeded histories of sends, acks (honest/adversarial), link losses and resumptions against an executable XEP-0198 reference model fed from the wire",
          "seeded search over histories and fault sequences with a real client and an independent scripted server; refinement against a small reference model after every step",
          "transport, TLS, clock and server are simulated; server-to-client delivery is element-wise"),
@@ -39,7 +45,7 @@ m = {
  "setup_cmd": "./check build",
  "hooks": {"guard": "QXMPP_VERIF",
            "enable": "no source hook was needed: the simulator uses existing seams (friend class TestClient, public QAbstractEventDispatcher, QSslSocket virtuals, public QXmppIncomingClient/QXmppPasswordChecker/QXmppTrustStorage interfaces) and link-time interposition of non-virtual Qt/libc symbols (clock_gettime, QRandomGenerator::_fillRange, QUuid::createUuid, QSslSocket::isEncrypted/startClientEncryption/flush, QUdpSocket I/O) inside the qxsim executable; /verif/CMakeLists.txt passes -DQXMPP_VERIF to the static sanitised build of /repo's current tree but no source line depends on it",
-           "baseline_off_cmd": "cmake --build /repo/_build -j16 && ctest --test-dir /repo/_build -j8 --timeout 900",
+           "baseline_off_cmd": "cmake --build /repo/_build -j16 && ctest --test-dir /repo/_build -j1 --timeout 900",
            "source_commits": [], "add_only": True},
  "engines": [{"name": "qxsim", "path": "/verif/build/qxsim", "serves_properties": sorted(CLAIMED.keys()),
               "kind_free_text": "deterministic simulation: seeded scheduler, simulated clock/event dispatcher/transports, fault injection, plan minimisation (ddmin + per-op simplification) and fresh-process replay; driver /verif/check"}],
